@@ -272,6 +272,32 @@ func (eng *Engine) initExterns() {
 		k(st, x.eng.strHasPrefix(x, args[0].(Term), args[1].(Term)))
 	}
 
+	str1 := func(name string, n int) externFn {
+		return func(x *Exec, st *State, cc *ssa.CallCommon, fn *ssa.Function, args []Val, resT types.Type, k func(*State, Val)) {
+			tb(x, strNote)
+			var as []Term
+			for i := 0; i < n; i++ {
+				as = append(as, args[i].(Term))
+			}
+			k(st, UF(SI, name, as...))
+		}
+	}
+	E["strings.TrimSpace"] = str1("str.trimspace", 1)
+	E["strings.ToUpper"] = str1("str.toupper", 1)
+	E["strings.ToLower"] = str1("str.tolower", 1)
+	E["strings.ReplaceAll"] = str1("str.replaceall", 3)
+	E["strings.Split"] = func(x *Exec, st *State, cc *ssa.CallCommon, fn *ssa.Function, args []Val, resT types.Type, k func(*State, Val)) {
+		tb(x, "strings.Split(s, sep): a fresh slice whose length (>= 1, assuming a non-empty separator) and elements are uninterpreted functions of (s, sep)")
+		sT, sep := args[0].(Term), args[1].(Term)
+		arr := st.allocRef()
+		name, es := elemComp(types.Typ[types.String], nil)
+		c := st.comp(name, ArrSort(SI, ArrSort(SI, es)))
+		st.setComp(name, Sto(c, arr, UF(ArrSort(SI, SI), "str.split.arr", sT, sep)))
+		ln := UF(SI, "str.split.len", sT, sep)
+		st.assume(And(Ge(ln, TInt(1)), Le(ln, TInt(1<<40))))
+		k(st, st.mkSlice(arr, TInt(0), ln))
+	}
+
 	// ---- JSON (sonic): uninterpreted encoding of the marshalled value ----
 	const jsonNote = "sonic.Marshal/Unmarshal: uninterpreted enc/dec functions of the value's identity; dec(enc(x)) == x is NOT assumed (hypothesis H.json-roundtrip is stated where it is used)"
 	E["sonic.Marshal"] = func(x *Exec, st *State, cc *ssa.CallCommon, fn *ssa.Function, args []Val, resT types.Type, k func(*State, Val)) {
@@ -299,6 +325,13 @@ func (eng *Engine) initExterns() {
 		}
 	}
 	E["strconv.Atoi"] = parse2("atoi")
+	E["strconv.ParseFloat"] = parse2("parsefloat") // bitSize is not modelled (a constant 64 in this code base)
+	E["strconv.ParseInt"] = func(x *Exec, st *State, cc *ssa.CallCommon, fn *ssa.Function, args []Val, resT types.Type, k func(*State, Val)) {
+		tb(x, envNote)
+		v := UF(SI, "parseint.val", args[0].(Term), args[1].(Term), args[2].(Term))
+		st.assume(st.typeConstraint(v, types.Typ[types.Int64]))
+		k(st, &TupleVal{[]Val{v, UF(SI, "parseint.err", args[0].(Term), args[1].(Term), args[2].(Term))}})
+	}
 	E["strconv.ParseBool"] = parse2("parsebool")
 	E["time.ParseDuration"] = parse2("parseduration")
 	E["uuid.New"] = func(x *Exec, st *State, cc *ssa.CallCommon, fn *ssa.Function, args []Val, resT types.Type, k func(*State, Val)) {
@@ -572,7 +605,7 @@ func (x *Exec) builtin(st *State, fr *Frame, b *ssa.Builtin, cc *ssa.CallCommon,
 			return c
 		case *types.Basic:
 			l := UF(SI, "str.len", a)
-			st.assume(Ge(l, TInt(0)))
+			st.assume(And(Ge(l, TInt(0)), Le(l, Term{"9223372036854775807", SI})))
 			return l
 		case *types.Chan:
 			return Sub(Sel(st.comp("CH!sent", ArrSort(SI, SI)), a), Sel(st.comp("CH!rcvd", ArrSort(SI, SI)), a))
